@@ -41,11 +41,16 @@ pub fn make_include(cx: &mut Cx, list: &mut Vec<Item>, first: usize, dir: &str, 
     // range [i, j) of the node run; empty ranges give empty include files
     let i = first + cx.tape.draw(n as u64 + 1) as usize;
     let maxlen = list.len() - i;
-    let len = match cx.tape.draw(6) {
+    let mut len = match cx.tape.draw(6) {
         0 => 0,
         1 => maxlen,
         _ => cx.tape.draw(maxlen as u64 + 1) as usize,
     };
+    if in_ifdata {
+        // inside IF_DATA consecutive blocks may belong to different (unbracketed) tagged structs of the A2ML
+        // definition; "complete tagged items of one parent" is only guaranteed for a single block
+        len = len.min(1);
+    }
     let moved: Vec<Item> = list.drain(i..i + len).collect();
     st.counter += 1;
     st.made += 1;
